@@ -24,6 +24,8 @@ pub struct Extracted {
     pub config_keys: BTreeSet<String>,
     /// configuration keys `required_role_for_config_set` singles out
     pub config_sensitive: BTreeSet<String>,
+    /// fields of `ControlState` whose type mentions `Option<` (name, type text)
+    pub option_fields: Vec<(String, String)>,
 }
 
 impl Extracted {
@@ -188,6 +190,21 @@ pub fn extract(repo: &std::path::Path) -> Result<Extracted, String> {
             }
         }
     }
+    // optional parts of ControlState
+    if let Some(at) = text.find("pub struct ControlState {") {
+        let end = text[at..].find("\n}").map(|e| at + e).unwrap_or(text.len());
+        for line in text[at..end].lines() {
+            let line = line.trim();
+            if let Some(rest) = line.strip_prefix("pub ") {
+                if let Some((name, ty)) = rest.split_once(':') {
+                    if ty.contains("Option<") {
+                        ex.option_fields
+                            .push((name.trim().to_string(), ty.trim().trim_end_matches(',').to_string()));
+                    }
+                }
+            }
+        }
+    }
     let body = fn_body(&text, "is_debug_request").ok_or("is_debug_request not found in control.rs")?;
     for (_, _, lit) in string_literals(body) {
         ex.debug_gate.insert(lit);
@@ -335,11 +352,13 @@ impl Level {
 
 /// `None` = the property makes no statement (no auth token configured and the credential is
 /// not a live pairing token: the endpoint trusts its local socket).
-pub fn level(cred: Cred, token_set: bool) -> Option<Level> {
+/// `pairing_present` = the endpoint has a pairing store at all; without one a string that
+/// would be a valid pairing token elsewhere is just a wrong credential.
+pub fn level_with(cred: Cred, token_set: bool, pairing_present: bool) -> Option<Level> {
     match cred {
-        Cred::Viewer => Some(Level::Viewer),
-        Cred::Operator => Some(Level::Operator),
-        Cred::Engineer => Some(Level::Engineer),
+        Cred::Viewer if pairing_present => Some(Level::Viewer),
+        Cred::Operator if pairing_present => Some(Level::Operator),
+        Cred::Engineer if pairing_present => Some(Level::Engineer),
         Cred::Admin if token_set => Some(Level::Admin),
         _ if token_set => Some(Level::Unauth),
         _ => None,
@@ -538,6 +557,15 @@ const ODD_VALUES: &[&str] = &[
     "4294967295", "4294967296", "\"admin\"", "\"ADMIN\"", "\" viewer \"",
 ];
 
+/// Numeric boundary values (for every numeric parameter of every request type).
+pub const NUM_BOUNDS: &[&str] = &[
+    "9223372036854775807", "9223372036854775806", "-9223372036854775808", "-9223372036854775807",
+    "9223372036854775808", "18446744073709551614", "9223372036854", "9223372036855",
+    "9223372036854776", "4611686018427387904", "9007199254740993", "2147483647", "2147483648",
+    "-2147483648", "-2147483649", "65535", "65536", "255", "256", "1e19", "-1e19", "1e15",
+    "0.5", "-0.0", "1", "2",
+];
+
 /// Derive a parameter value of the given shape from a valid one.
 pub fn shape_params(ty: &str, shape: &str, r: &mut Reader) -> Option<J> {
     let valid = valid_params(ty);
@@ -547,7 +575,11 @@ pub fn shape_params(ty: &str, shape: &str, r: &mut Reader) -> Option<J> {
         "missing" => None,
         "null" => Some(J::Null),
         "wrong_typed" => {
-            let odd: J = serde_json::from_str(ODD_VALUES[r.pick(ODD_VALUES.len())]).unwrap_or(J::Null);
+            let odd: J = if r.chance(1, 3) {
+                serde_json::from_str(NUM_BOUNDS[r.pick(NUM_BOUNDS.len())]).unwrap_or(J::Null)
+            } else {
+                serde_json::from_str(ODD_VALUES[r.pick(ODD_VALUES.len())]).unwrap_or(J::Null)
+            };
             match base {
                 Some(J::Object(mut m)) if !m.is_empty() => {
                     let keys: Vec<String> = m.keys().cloned().collect();
@@ -655,22 +687,60 @@ pub fn shape_params(ty: &str, shape: &str, r: &mut Reader) -> Option<J> {
 pub fn odd_param_variants(ty: &str) -> Vec<J> {
     let mut out = Vec::new();
     let mut seen = BTreeSet::new();
-    for base in valid_params(ty).into_iter().flatten() {
+    let mut bases: Vec<J> = valid_params(ty).into_iter().flatten().collect();
+    if ty == "config.set" {
+        // every configuration key, not only the ones the grid's variants use
+        for key in super::fixture::PROBED_CONFIG_KEYS {
+            let mut m = serde_json::Map::new();
+            m.insert(key.to_string(), config_value(key));
+            bases.push(J::Object(m));
+        }
+    }
+    let mut push = |j: J, out: &mut Vec<J>| {
+        if seen.insert(j.to_string()) {
+            out.push(j);
+        }
+    };
+    for base in bases {
         let J::Object(m) = base else { continue };
-        for k in m.keys() {
+        for (k, cur) in &m {
             let mut without = m.clone();
             without.remove(k);
-            if seen.insert(J::Object(without.clone()).to_string()) {
-                out.push(J::Object(without));
-            }
+            push(J::Object(without), &mut out);
             for odd in ODD_VALUES {
                 let v: J = serde_json::from_str(odd).unwrap_or(J::Null);
                 let mut mm = m.clone();
                 mm.insert(k.clone(), v);
-                let j = J::Object(mm);
-                if seen.insert(j.to_string()) {
-                    out.push(j);
+                push(J::Object(mm), &mut out);
+            }
+            // numeric members (and arrays of numbers): every boundary value
+            let numeric = cur.is_number()
+                || cur.as_array().map(|a| !a.is_empty() && a.iter().all(|x| x.is_number() || x == "$BPLINE")).unwrap_or(false)
+                || matches!(cur.as_str(), Some("$BPLINE") | Some("$FILEID"));
+            if numeric {
+                for b in NUM_BOUNDS {
+                    let v: J = serde_json::from_str(b).unwrap_or(J::Null);
+                    let mut mm = m.clone();
+                    mm.insert(k.clone(), if cur.is_array() { json!([v]) } else { v });
+                    push(J::Object(mm), &mut out);
                 }
+            }
+        }
+    }
+    if ty == "hmi.descriptor.update" {
+        for (field, _) in [("order", 0), ("duration_ms", 0)] {
+            for b in NUM_BOUNDS {
+                let mut d = descriptor_update_params();
+                d["descriptor"]["pages"][0][field] = serde_json::from_str(b).unwrap_or(J::Null);
+                push(d, &mut out);
+            }
+        }
+        for field in ["min", "max", "span"] {
+            for b in NUM_BOUNDS {
+                let mut d = descriptor_update_params();
+                d["descriptor"]["pages"][0]["sections"][0]["widgets"][0][field] =
+                    serde_json::from_str(b).unwrap_or(J::Null);
+                push(d, &mut out);
             }
         }
     }
@@ -968,6 +1038,7 @@ pub fn all_cfgs() -> Vec<super::fixture::Cfg> {
                     debug_enabled,
                     mode_debug,
                     paused: false,
+                    variant: 0,
                 });
             }
         }
